@@ -24,6 +24,19 @@ _spec.loader.exec_module(_tr)
 _tr.TieBroken = TieBroken
 
 
+
+def _is_wall_timeout(crash):
+    """run_cases reports a wall-clock expiry of the whole batch as (-9, "timeout") on its first case: the machine is loaded;
+    termination itself is judged by the harness' CPU timer (exit status 88)"""
+    return crash is not None and crash[0] == -9 and crash[1] == "timeout"
+
+
+def _wall_inconclusive(corr, what):
+    corr.count("wall_clock_expired_without_cpu_exhaustion")
+    if len(corr.inconclusive) < 20:
+        corr.inconclusive.append("wall-clock limit expired without CPU exhaustion (loaded machine): " + what)
+
+
 def translate(ctx):
     _tr.run(ctx.repo, ctx.verif)
 
@@ -38,7 +51,7 @@ def run_docs(ctx, corr, exe, docs, stream, quiet=False):
     """docs: list of (label, bytes, split, expect) ; expect in (None, 'accept').  Returns per doc the list of R states
     of the implementation and whether an error was recorded (for the exploration)."""
     cases = [[f"doc {hexs(d)} {k}"] for _, d, k, _ in docs]
-    impl, crashes = run_cases(exe, cases, timeout=1200)
+    impl, crashes = run_cases(exe, cases, timeout=3600)
     mcases = []
     for out in impl:
         ev = []
@@ -51,7 +64,7 @@ def run_docs(ctx, corr, exe, docs, stream, quiet=False):
     # exploration documents (quick tier): only the implementation is run and judged; every prefix found is
     # compared with the model as part of the probes that extend it
     skip_model = quiet and not ctx.thorough
-    model, mcr = ([[] for _ in mcases], {}) if skip_model else run_cases(ctx.driver("drv_dataparser"), mcases, timeout=1200)
+    model, mcr = ([[] for _ in mcases], {}) if skip_model else run_cases(ctx.driver("drv_dataparser"), mcases, timeout=3600)
     info = []
     for i, (label, d, k, expect) in enumerate(docs):
         out = impl[i]
@@ -66,10 +79,15 @@ def run_docs(ctx, corr, exe, docs, stream, quiet=False):
         corr.count(f"{stream}_docs")
         payload = {"stream": stream, "label": label, "doc": d.decode("utf-8", "replace"), "split": k}
         if i in crashes:
-            if crashes[i][0] == 88:
-                corr.fail(f"DataParser does not terminate (10 s limit) on {label}", payload, "DataParser", "harness alarm")
+            if _is_wall_timeout(crashes[i]):
+                _wall_inconclusive(corr, f"DataParser stream batch starting at {label}")
+            elif crashes[i][0] == 88:
+                corr.fail(f"DataParser does not terminate (10 s CPU-time limit) on {label}", payload, "DataParser", "harness CPU timer")
             else:
                 corr.fail(f"DataParser harness crashed/sanitizer report on {label}", payload, "DataParser", crashes[i][1][-3000:])
+            continue
+        if i in mcr and _is_wall_timeout(mcr[i]):
+            _wall_inconclusive(corr, f"DataParser model driver batch starting at {label}")
             continue
         if i in mcr:
             corr.disagree(stream, [label], out[-3:], model[i][-3:], "model driver crashed: " + mcr[i][1][-300:])
